@@ -294,6 +294,7 @@ class World:
             cache = ov.request_cache.get(RetryRequestCache, circuit.circuit_id)
             nxt = (len(cache.candidates), cache.packet_identifier) if cache is not None else None
             rec = world.ctx[lab]
+            world.count("branch:send_extend_or_create:" + ("cache_installed" if nxt is not None else "no_candidate_left"))
             if rec is not None and rec["k"] == "mk":
                 rec["next"] = nxt
             elif rec is not None and rec["k"] == "cell" and rec["body"][0] in ("created", "extended"):
@@ -325,6 +326,7 @@ class World:
             r = orig_add(cache)
             if r is not None and isinstance(cache, CreateRequestCache):
                 world.parent[cache.to_circuit_id] = cache.from_circuit_id
+                world.count("branch:on_extend:create_sent")
                 for rec in reversed(world.pending[lab]):
                     if rec["k"] == "cell" and rec["body"][0] == "extend" and rec["id"] == cache.from_circuit_id \
                             and rec["body"][1] == 70000:
@@ -347,6 +349,22 @@ class World:
                     raise ValueError("bad signature")
                 log({"k": "destroy", "id": payload.circuit_id, "peer": world.label_key(auth.public_key_bin),
                      "fwd": int(payload.reason != 0)})
+                # which branch of on_destroy this input selects (measured, for the coverage floor)
+                cidd, signer = payload.circuit_id, auth.public_key_bin
+                nr = ov.relay_from_to.get(cidd)
+                pr = ov.relay_from_to.get(nr.circuit_id) if nr else None
+
+                def same(hop):
+                    return hop.peer.public_key.key_to_bin() == signer
+                if pr is not None and same(pr.hop):
+                    br = "relay_pair:" + ("passed_on" if payload.reason else "reason0")
+                elif cidd in ov.exit_sockets and same(ov.exit_sockets[cidd].hop):
+                    br = "exit"
+                elif cidd in ov.circuits and ov.circuits[cidd].hop is not None and same(ov.circuits[cidd].hop):
+                    br = "circuit"
+                else:
+                    br = "ignored"
+                world.count("branch:on_destroy:" + br)
             except Exception as e:
                 world.count("destroy:undecodable:" + type(e).__name__)
             return orig_destroy(source, data)
@@ -371,6 +389,7 @@ class World:
                 return orig_rc(cell)
             finally:
                 world.sendkind[lab] = None
+                world.count("branch:relay_cell:" + ("forwarded" if st["sent"] else "dropped"))
                 if st["sent"]:
                     world.outs[lab]["F"].append(cid)
                     if flagged and route is not None:
@@ -416,6 +435,7 @@ class World:
         async def should_join_circuit(payload, addr):
             full = ov.settings.max_joined_circuits <= len(ov.relay_from_to) + len(ov.exit_sockets)
             r = await orig_sj(payload, addr)
+            world.count("branch:on_create:" + ("joined" if r else "refused_at_limit"))
             if not r:
                 world.outs[lab]["J"].append(payload.circuit_id)
             if full and r:
@@ -1490,10 +1510,45 @@ def run_all(ctx: Ctx, n_random, use_model, with_exhaustive):
         logging.disable(logging.NOTSET)
 
 
+# classes of inputs every run must have reached (prefixes of evidence-distribution keys).  They are the branches of the
+# hand-written model definitions that carry a clause of the property (Node.onDestroy, Node.onCell, Node.onCreate,
+# Node.onCreated, Entry.ours, Entry.retried, retryTimeout, Entry.remove, Entry.exited, the sweep) and the scenario
+# classes design.d/C09.md lists.  A clean run in which one of them stays at zero is not a pass: exit 2.
+COVERAGE_FLOOR = [
+    "branch:on_destroy:relay_pair:passed_on", "branch:on_destroy:relay_pair:reason0", "branch:on_destroy:exit",
+    "branch:on_destroy:circuit", "branch:on_destroy:ignored",
+    "branch:on_create:joined", "branch:on_create:refused_at_limit", "late_duplicate_create",
+    "branch:on_extend:create_sent", "branch:relay_cell:forwarded", "branch:relay_cell:dropped",
+    "branch:send_extend_or_create:cache_installed", "branch:send_extend_or_create:no_candidate_left",
+    "handshake:verify_failed:created", "handshake:verify_failed:extended", "bad_candidate_list_answer",
+    "stim:mk", "stim:retry", "stim:rmc", "stim:rmr", "stim:rmx", "stim:outside", "stim:traffic", "stim:destroy",
+    "stim:cell:relayed", "stim:cell:create", "stim:cell:created", "stim:cell:extend", "stim:cell:extended",
+    "stim:cell:ping", "stim:cell:pong", "stim:cell:data", "stim:cell:testreq", "stim:cell:junk", "stim:cell:other",
+    "user:data:allowed", "user:data:refused_by_exit_policy", "user:speedtest",
+    "exit_enabled_by_data:before_teardown", "exit_enabled_by_data:after_teardown", "postmortem_data_cell",
+    "teardown:o_destroy", "teardown:o_destroy0", "teardown:o_abandon", "teardown:o_dies", "teardown:relay_destroy",
+    "teardown:relay_dies", "teardown:exit_destroy", "teardown:exit_dies", "teardown:none",
+    "fault:drop:", "fault:dup:", "fault:delay:", "wanting_node", "final_abandon",
+    "originator_entry_already_reclaimed", "companions_alive_at_main_deadline", "companion:created",
+    "age:circuit_still_ready_before_limit", "race:remove_now:", "race:destroy0:", "case:join", "case:early",
+    "hops:1", "hops:2", "hops:3", "phase:halfbuilt", "phase:ready", "phase:transfer", "obs_compared",
+]
+
+
+def coverage_floor(ctx: Ctx):
+    if ctx.failures or ctx.disagreements or ctx.broken or ctx.searching:
+        return      # a regressed tree may well lose classes: the verdict is about the failures then
+    missing = [k for k in COVERAGE_FLOOR if not any(c.startswith(k) and v > 0 for c, v in ctx.counts.items())]
+    ctx.extra["coverage_floor"] = {"required": len(COVERAGE_FLOOR), "missing": missing}
+    if missing:
+        raise InfraError("coverage floor: input classes never reached in this run: " + ", ".join(missing))
+
+
 def run(ctx: Ctx):
     if ctx.replay_input is not None:
         return replay(ctx, ctx.replay_input)
     run_all(ctx, ctx.scale(200, 400), ctx.model_ok, ctx.thorough())
+    coverage_floor(ctx)
 
 
 def search(ctx: Ctx, reason: str):
